@@ -6,27 +6,33 @@ EXPLANATION = ("the concentrated divisor goes through the verified checker conc_
                "for equality with the model's burn on the implementation's own configuration (Dhar's theorem C08_burn)")
 TWO_STAGE = True
 
+def _threshold_game(rng, G, q):
+    """a little debt off q next to rich vertices holding about (valence + total debt) chips, on thick edges: concentration takes more from a rich vertex
+    than the debt it repairs, and the vertex then sits right at the burning threshold"""
+    n = G["n"]; e = [[a, b, rng.choice([1, 2, 3])] for a, b, _ in G["edges"]]; G = common.mk_graph_like(G, e); M = common.matrix(G)
+    others = [x for x in range(n) if x != q]; debtors = rng.sample(others, rng.randint(1, min(2, len(others) - 1))); D = [0] * n; tot = 0
+    for v in debtors: D[v] = -rng.randint(1, 2); tot -= D[v]
+    for v in others:
+        if v not in debtors: D[v] = rng.choice([0, sum(M[v]) + tot + rng.choice([-1, 0, 0, 1])])
+    D[q] = rng.randint(-2, 4)
+    return G, D
 def gen(rng, tier):
     cases = []
     for _ in range(300 if tier == "quick" else 6000):
         G, fam = common.random_connected_graph(rng, 1, 6 if tier == "quick" else 7, large_ok=True)
         n = G["n"]; q = rng.randrange(n); D = common.random_divisor(rng, G)
         if rng.random() < 0.15: G, D = common.thin_cut_game(rng); n = G["n"]; q = rng.randrange(n); fam = "thincut"
-        if rng.random() < 0.2 and n >= 3 and G["edges"]:
-            # a little debt off q next to rich vertices holding about (valence + total debt) chips, on thick edges: concentration takes more from a rich
-            # vertex than the debt it repairs, and the vertex then sits right at the burning threshold
-            e = [[a, b, rng.choice([1, 2, 3])] for a, b, _ in G["edges"]]; G = common.mk_graph_like(G, e); M = common.matrix(G)
-            others = [x for x in range(n) if x != q]; debtors = rng.sample(others, rng.randint(1, min(2, len(others) - 1))); D = [0] * n; tot = 0
-            for v in debtors: D[v] = -rng.randint(1, 2); tot -= D[v]
-            for v in others:
-                if v not in debtors: D[v] = rng.choice([0, sum(M[v]) + tot + rng.choice([-1, 0, 0, 1])])
-            D[q] = rng.randint(-2, 4)
+        if rng.random() < 0.2 and n >= 3 and G["edges"]: G, D = _threshold_game(rng, G, q)
         if rng.random() < 0.15 and n >= 2 and G["edges"]:      # a debt far deeper than the valence of the vertex that owes it (many borrowing moves at one vertex)
             M = common.matrix(G); v = rng.choice([x for x in range(n) if x != q]); D = list(D); D[v] = -(10 * sum(M[v]) + rng.randint(1, 3 * sum(M[v]) + 5))
         if rng.random() < 0.08 and G["edges"]: G, D = common.scale_game(rng, G, D); fam = fam + "*2^k"
         if rng.random() < 0.4:   # burn-only: non-negative off q, small values so that both burning and non-burning happen
             M = common.matrix(G); D = [rng.randint(0, max(1, sum(M[v]))) for v in range(n)]; D[q] = rng.randint(-3, 3)
         cases.append({"G": G, "q": q, "D": D, "fam": fam, "s": rng.randrange(1 << 30), "subsets": tier == "thorough" and n <= 7})
+    # a batch of threshold games of their own (small graphs, cheap): a seeded change needed this family and shows on well under 1 % of its members
+    for _ in range(900 if tier == "quick" else 6000):
+        G, fam = common.random_connected_graph(rng, 3, 5); q = rng.randrange(G["n"]); G, D = _threshold_game(rng, G, q)
+        cases.append({"G": G, "q": q, "D": D, "fam": "threshold", "s": rng.randrange(1 << 30), "subsets": False})
     return cases
 
 def impl(c):
@@ -62,6 +68,10 @@ def impl(c):
             a, b = rng.sample(range(G["n"]), 2); dv.chip_transfer(names[a], names[b], rng.randint(1, 4) + max(0, common.div_to_list(G, dv)[a]))
         D2 = common.div_to_list(G, dv); dh.send_debt_to_q(); conc2 = common.div_to_list(G, dh.configuration.divisor); u3, _ = dh.run()
         out["again"] = {"D2": D2, "conc2": conc2, "unburnt2": sorted(idx[x] for x in u3)}
+    # run() asked directly on the raw divisor (debt still off q): it concentrates the debt itself and must then return the maximal legal firing set of the
+    # configuration it leaves behind
+    d3 = common.build_impl_divisor(G, c["D"], rng=rng); dh3 = DharAlgorithm(d3.graph, d3, names[c["q"]]); u3, _ = dh3.run()
+    out["direct"] = {"conc": common.div_to_list(G, dh3.configuration.divisor), "unburnt": sorted(idx[x] for x in u3)}
     if c.get("subsets"):
         from chipfiring.CFConfig import CFConfig
         cfg = CFConfig(common.build_impl_divisor(G, conc, rng=rng), names[c["q"]])
@@ -77,6 +87,8 @@ def model_lines(c, r):
     if "exc" in r or not isinstance(r["ok"]["conc"], list): return [["info"] + g]
     return [["concok"] + g + [c["q"]] + common.enc_list(c["D"]) + common.enc_list(r["ok"]["conc"]),
             ["burn"] + g + [c["q"]] + common.enc_list(r["ok"]["conc"])] + [["burn"] + g + [c["q"]] + common.enc_list(cfgb) for cfgb, _ in r["ok"].get("rounds", [])] + \
+           ([["concok"] + g + [c["q"]] + common.enc_list(c["D"]) + common.enc_list(r["ok"]["direct"]["conc"]), ["burn"] + g + [c["q"]] + common.enc_list(r["ok"]["direct"]["conc"])]
+            if isinstance(r["ok"].get("direct", {}).get("conc"), list) and all(type(x) is int for x in r["ok"]["direct"]["conc"]) else [["info"] + g, ["info"] + g]) + \
            ([["concok"] + g + [c["q"]] + common.enc_list(r["ok"]["again"]["D2"]) + common.enc_list(r["ok"]["again"]["conc2"]), ["burn"] + g + [c["q"]] + common.enc_list(r["ok"]["again"]["conc2"])]
             if isinstance(r["ok"].get("again", {}).get("conc2"), list) and all(type(x) is int for x in r["ok"]["again"]["conc2"] + r["ok"]["again"]["D2"]) else [])
 
@@ -99,8 +111,15 @@ def judge(c, r, mo):
         line = mo[2 + i]; kk = int(line[0]); U2 = sorted(int(x) for x in line[1:1 + kk])
         if u2 != U2: out.append({"what": "burn #%d on the same DharAlgorithm object returned %s for configuration %s (q=%d); its maximal legal firing set is %s" % (i + 2, u2, cfgb, c["q"], U2)}); break
     if "union_legal" in o and o["union_legal"] != U: out.append({"what": "union of all legal subsets (implementation's own test) is %s, run() returned %s, model %s" % (o["union_legal"], o["unburnt"], U)})
-    if "again" in o and len(mo) >= 4 + len(o.get("rounds", [])):
-        a = o["again"]; l1, l2 = mo[2 + len(o.get("rounds", []))], mo[3 + len(o.get("rounds", []))]
+    base = 2 + len(o.get("rounds", []))
+    if "direct" in o and len(mo) >= base + 2 and mo[base][0] in ("0", "1"):
+        dr = o["direct"]
+        if mo[base][0] != "1": out.append({"what": "run() on the raw divisor %s left %s: rejected by the verified checker conc_ok (debt off q, or left the class)" % (c["D"], dr["conc"])})
+        else:
+            kk = int(mo[base + 1][0]); Ud = sorted(int(x) for x in mo[base + 1][1:1 + kk])
+            if dr["unburnt"] != Ud: out.append({"what": "run() on the raw divisor %s (debt still off q) returned %s; it left the configuration %s, whose maximal legal firing set is %s" % (c["D"], dr["unburnt"], dr["conc"], Ud)})
+    if "again" in o and len(mo) >= 6 + len(o.get("rounds", [])):
+        a = o["again"]; l1, l2 = mo[4 + len(o.get("rounds", []))], mo[5 + len(o.get("rounds", []))]
         if l1[0] != "1": out.append({"what": "second concentration on the same DharAlgorithm object (after hand-made transfers) turned %s into %s: rejected by the verified checker conc_ok" % (a["D2"], a["conc2"])})
         else:
             kk = int(l2[0]); U3 = sorted(int(x) for x in l2[1:1 + kk])
@@ -124,6 +143,14 @@ def oracle(c, r):
             for S in O.subsets(others):
                 if O.legal(m, cfgb, S): un |= S
             if sorted(un) != u2: why.append("burn #%d on the same object: union of legal sets of %s is %s, returned %s" % (i + 2, cfgb, sorted(un), u2)); break
+        if "direct" in o and not why:
+            dr = o["direct"]
+            if any(dr["conc"][v] < 0 for v in range(len(m)) if v != q) or not O.lin_equiv(m, c["D"], dr["conc"]): why.append("run() on the raw divisor left %s" % dr["conc"])
+            else:
+                un = set()
+                for S in O.subsets(others):
+                    if O.legal(m, dr["conc"], S): un |= S
+                if sorted(un) != dr["unburnt"]: why.append("run() on the raw divisor: union of legal sets of %s is %s, returned %s" % (dr["conc"], sorted(un), dr["unburnt"]))
         if "again" in o and not why:
             a = o["again"]
             if any(a["conc2"][v] < 0 for v in range(len(m)) if v != q) or not O.lin_equiv(m, a["D2"], a["conc2"]): why.append("second concentration on the same object: %s -> %s" % (a["D2"], a["conc2"]))
